@@ -25,7 +25,7 @@ for d in sorted(glob.glob(os.path.join(ROOT, "seeded", "*"))):
     m = json.load(open(mp))
     out.append("| %s | %s | %s | %s | %s | %s |" % (os.path.basename(d), m.get("property"), str(m.get("summary", ""))[:300].replace("|", "\\|").replace("\n", " "),
                str(m.get("needs", ""))[:250].replace("|", "\\|").replace("\n", " "), str(m.get("confirmed", "pending"))[:160].replace("|", "\\|"),
-               str(m.get("detected_by", "pending")).replace("|", "\\|")[:300]))
+               str(m.get("detected_by") or (("as first written — " + m["detected_by_auto"]) if m.get("detected_by_auto") else "pending")).replace("|", "\\|")[:300]))
 out += ["", "### 8.4 Per-property status (generated from checks/*.py, evidence/*.json; details in notes/Cnn.md)", "",
         "| property | theorems (discharged/obligations) | correspondence cases (quick) | max rel diff | partial clause (what is carried by contract / correspondence only) |", "|---|---|---|---|---|"]
 import importlib, sys
